@@ -28,7 +28,9 @@ def runMonitor (pid : String) (c : MonCtx) (ls : List Label) : Option (Option Na
   | "C04" => some (ff (monC04 c) ls)
   | "C05" => some (ff (monC05 c) ls)
   | "C06" => some (ff (monC06 c) ls)
-  | "C07" => some (ff (monC07 c) ls)
+  | "C07" => some (match ff (monC07 c) ls with
+      | some k => some k
+      | none => ff (monC07o c) ls)
   | "C10" => some (ff (monC10 c) ls)
   | "C11" => some (ff (monC11 c) ls)
   | "C12" => some (ff (monC12 c.cfg.cap) ls)
